@@ -156,17 +156,22 @@ def _mutual(kl, kc, c1, c2, want):
         _restore(real)
 
 
-def h_mutual(ka: int, kb: int, same_challenge: bool) -> bool:
+CHALLENGES = (b'\x01' * 20, b'#' * 20, b'#CHALLENGE#' + b'\x05' * 9, b'EGNAL' + b'\x07' * 15, b'\x00' * 20, b'#WELCOME##FAILURE#..')
+# "whatever the challenge bytes": bytes that also occur in the protocol's own markers, NULs, the markers themselves
+
+
+def h_mutual(ka: int, kb: int, ch: int) -> bool:
     """
-    pre: 0 <= ka < len(KEYS) and 0 <= kb < len(KEYS)
+    pre: 0 <= ka < len(KEYS) and 0 <= kb < len(KEYS) and 0 <= ch < 2 * len(CHALLENGES)
     post: _
     """
-    c1 = b'\x01' * 20
-    c2 = c1 if same_challenge else b'\x02' * 20
+    ch = realize(ch)
+    c1 = CHALLENGES[ch % len(CHALLENGES)]
+    c2 = c1 if ch >= len(CHALLENGES) else CHALLENGES[(ch + 1) % len(CHALLENGES)]
     return _mutual(_key(ka), _key(kb), c1, c2, False)
 
 
-def h_mutual_twin(ka: int, kb: int, same_challenge: bool) -> bool:
+def h_mutual_twin(ka: int, kb: int, ch: int) -> bool:
     """
     pre: 0 <= ka < len(KEYS) and 0 <= kb < len(KEYS)
     post: _
